@@ -25,7 +25,7 @@ def classes(a, spec, res):
 
 def subchecks(tier):
     allowed = [f for f in common.FULL if f not in ("prio_reroute", "sched_reroute")]
-    prof = common.full_profile(allowed=allowed, load="heavy")
+    prof = common.full_profile("C06", allowed=allowed, load="heavy")
     prof.weights.update({"capacity": 0.9, "system_capacity": 0.35, "batching": 0.4, "baulking": 0.25, "zero_servers": 0.15, "ps": 0.05})
     return [system_subcheck("lattice", prof, lambda spec: [Capacity(spec)], nontrivial, classes=classes, obs=True,
                             n={"quick": 9600, "thorough": 50000}, rule="capacitated lattice; admission log vs spec capacity")]
